@@ -79,6 +79,12 @@ Example C07_sequence_example :
           tc_red := [false; false]; tc_after := [2%N] |}.
 Proof. split; reflexivity. Qed.
 
+(* whoever only calls rmslice with ordered bounds - any strategy, present or future - can only
+   delete reducible atoms (the data-level half of C04, independent of any strategy model) *)
+Theorem C07_sequence_only_deletes : forall ops t t', wf t -> ordered_seq (zipped t) ops = true ->
+  rm_seq t ops = Ok t' -> sub_reducible t t'.
+Proof. exact rm_seq_sub_reducible. Qed.
+
 (* in the functional model copy is the identity (aliasing is covered by the
    correspondence check, which compares the source object after every operation) *)
 Theorem C07_copy : forall t, copy t = t.
@@ -108,5 +114,6 @@ Print Assumptions C07_full_range.
 Print Assumptions C07_len_after.
 Print Assumptions C07_content_after.
 Print Assumptions C07_sequence.
+Print Assumptions C07_sequence_only_deletes.
 Print Assumptions C07_copy.
 Print Assumptions C07_precondition_needed_refuted.
